@@ -1352,6 +1352,11 @@ def generate_loopy(result: Array | AbstractResultWithNamedArrays | dict[str, Arr
          for name, output in outputs._data.items()},
         tags=outputs.tags)
 
+    # Stripping the tag may turn an output into an equal-but-distinct copy of
+    # another output or of a node another output depends on.
+    from pytato.transform import deduplicate
+    outputs = deduplicate(outputs)
+
     compute_order = preproc_result.compute_order
 
     if options is None:
